@@ -344,9 +344,12 @@ func c14Substr(ctx *Ctx, n int) {
 		cs := clustersOf(a.AsString())
 		off := int64(r.Intn(2*len(cs)+5) - len(cs) - 2)
 		ln := int64(r.Intn(len(cs)+4) - 2)
+		if i == 0 { // corpus: minimal witness of the negative-offset / zero-length finding
+			a, cs, off, ln = sv("a"), []string{"a"}, -1, 0
+		}
 		var offV, lnV cty.Value = cty.NumberIntVal(off), cty.NumberIntVal(ln)
 		inDomain := true
-		switch r.Intn(30) {
+		switch r.Intn(30) * imin(i, 1) {
 		case 0:
 			offV, inDomain = cty.NumberFloatVal(0.5), false
 		case 1:
@@ -727,6 +730,9 @@ func c14Dates(ctx *Ctx, n int) {
 	durs := []string{"1h", "-1h", "24h", "90m", "1.5h", "1s", "0", "100ms", "-8760h", "1h30m15s", "87600h", "2562047h", "1d", "", "h", "1x", "1 h", "-", "9223372036s", "1us", "1µs"}
 	for i := 0; i < n; i++ {
 		format, ts := sv(genDateFormat(ctx)), sv(genTimestamp(ctx))
+		if i == 0 { // corpus: minimal witness of the unterminated-literal finding
+			format, ts = sv("'a''"), sv("2020-01-02T03:04:05Z")
+		}
 		o := newOracle()
 		t, ok := o.parseTimestamp(ts.AsString())
 		c := glueCase{name: "formatdate", goNm: "FormatDate", f: stdlib.FormatDateFunc, args: []cty.Value{format, ts}, orc: o}
